@@ -185,7 +185,7 @@ func c13Menu() []c13op {
 			is := s.build(c)
 			p, err := multiproof.CreateMultiProof(common.NewTranscript("vt"), c, is.Cs, is.fs, is.zs)
 			if err != nil {
-				panic(err)
+				panic(core.ImplFault{API: "CreateMultiProof", Input: "honest statement " + s.String(), Got: "error: " + err.Error()})
 			}
 			if !good {
 				one := fr.One()
@@ -278,7 +278,7 @@ func c13Menu() []c13op {
 		hb := honestProofBytes(seed, 0)
 		var p multiproof.MultiProof
 		if err := p.Read(bytes.NewReader(hb)); err != nil {
-			panic(err)
+			panic(core.ImplFault{API: "MultiProof.Read", Input: "bytes of an honest proof", Got: "error: " + err.Error()})
 		}
 		healthy := ""
 		return []interface{}{&p}, func() string {
@@ -390,7 +390,7 @@ func c13Menu() []c13op {
 		buf := append(make([]byte, 0, 600), hb...)
 		var p multiproof.MultiProof
 		if err := p.Read(bytes.NewReader(hb)); err != nil {
-			panic(err)
+			panic(core.ImplFault{API: "MultiProof.Read", Input: "bytes of an honest proof", Got: "error: " + err.Error()})
 		}
 		p.IPA.L, p.IPA.R = slackEl(p.IPA.L), slackEl(p.IPA.R)
 		return []interface{}{&buf, &p}, func() string {
